@@ -180,9 +180,16 @@ def drain(w, L):
             # something is pending but the broker has nothing to answer: let time
             # pass (a retransmission may be what is needed)
             idle_rounds += 1
-            if idle_rounds > 8 or not w.pending_timers():
+            if idle_rounds <= 3 and w.pending_timers():
+                w.run_step({"op": "time.fire", "tie": 0})
+            elif idle_rounds <= 6:
+                # still stuck: replace the connection; a persistent session re-sends what
+                # is unacknowledged at the next CONNACK, a clean one fails it
+                for addr in addrs:
+                    if _pending(L, addr) and w.live(addr) is not None:
+                        w.run_step({"op": "net.close", "addr": addr, "kind": "fin", "drop": True})
+            else:
                 break
-            w.run_step({"op": "time.fire", "tie": 0})
     L.drained = True
 
 
@@ -202,7 +209,7 @@ def silence(w, L):
         if not wc.lost:
             w.run_step({"op": "net.finish_close", "addr": addr})
     n = 0
-    horizon = w.now + 1e7
+    horizon = min(w.now + 1e7, 1.0e9)
     while w.pending_timers() and n < 300:
         if not w.run_step({"op": "time.fire", "tie": 0, "max_t": horizon}):
             break
